@@ -400,7 +400,7 @@ class LTr(BTr):
         found = {}
         self.pending = getattr(self, 'pending', {})
         self.pending[name] = found
-        env0, f0, fr0, ea0 = dict(self.env), self.fresh, set(self.frozen), dict(self.elem_alias)
+        env0, f0, fr0, ea0, pre0 = dict(self.env), self.fresh, set(self.frozen), dict(self.elem_alias), list(self.pre)
         try:
             self.block(rest, lambda: '_')
         except Untranslatable:
@@ -410,7 +410,7 @@ class LTr(BTr):
             self.pending.pop(name, None)
         if 't' not in found:
             found['t'] = NATLIST
-        self.env, self.fresh, self.frozen, self.elem_alias = env0, f0, fr0, ea0
+        self.env, self.fresh, self.frozen, self.elem_alias, self.pre = env0, f0, fr0, ea0, pre0
         self.env[name] = found['t']
         return f'let {lname(name)} : {lean_type(found["t"])} := []\n{self.block(rest, kont)}'
 
@@ -643,7 +643,7 @@ class LTr(BTr):
         if not isinstance(s.target, ast.Name):
             raise Untranslatable('loop target')
         j = s.target.id
-        if j in self.env or j == self.record or j in LEAN_RESERVED or j in self.callbacks or j == self.self_name:
+        if self.env.get(j) not in (None, POISON) or j == self.record or j in LEAN_RESERVED or j in self.callbacks or j == self.self_name:
             raise Untranslatable(f'loop variable {j} shadows another name')
         for n in ast.walk(ast.Module(body=list(s.body), type_ignores=[])):
             if isinstance(n, (ast.Continue, ast.Return, ast.While, ast.Try, ast.With, ast.FunctionDef, ast.Lambda)):
